@@ -115,6 +115,7 @@ type Engine struct {
 	// single writer (see noteWrite)
 	raised    bool
 	costTrack []costTrack
+	initMaxCost    int64  // MaxCost right after NewCache
 	modelAs        string // reference model deciding another property (C15 freshness)
 	modelFrom      uint64
 	nMarkerQueued  int    // Wait markers that have entered the write buffer
@@ -326,10 +327,12 @@ func cbReject(it *ristretto.Item[*Val]) {
 	}
 	if e.dec9.active && e.dec9.key == it.Key {
 		e.dec9.rejSeq = seq
-	} else if !e.plan.Flags.Race {
-		// C09: a newcomer is turned away only for a cause the admission policy
-		// established (too large, already resident, out-voted)
-		e.violate("C09", "rejected-without-decision", fmt.Sprintf("value %d (key %d) was reported through OnReject although the admission policy was not consulted for it", v.ID, v.Key), seq)
+	} else if !e.plan.Flags.Race && !e.allowedRejectCause(it.Key, v) {
+		// C09: a newcomer is turned away only for a cause the discipline allows
+		// (too large, already resident, out-voted). Out-voting is established by
+		// the admission policy; the other two are facts this harness can see for
+		// itself, so code that tests them before asking the policy is fine.
+		e.violate("C09", "rejected-without-decision", fmt.Sprintf("value %d (key %d) was reported through OnReject although it is not larger than the cache, its key is not resident and the admission policy was not consulted for it", v.ID, v.Key), seq)
 	}
 	probe(PrRejected)
 }
@@ -637,6 +640,7 @@ func (e *Engine) Run(plan *Plan, dec *core.Decider) *RunResult {
 		return &RunResult{Seed: plan.Seed, Profile: plan.Profile, Abort: "newcache: " + err.Error()}
 	}
 	e.api = api
+	e.initMaxCost = api.MaxCost()
 	e.nkeys = len(plan.Cfg.Keys)
 	e.keyOfHash = map[uint64][]int{}
 	for i := 0; i < e.nkeys; i++ {
@@ -939,6 +943,36 @@ func (e *Engine) noteDrained(clear bool) {
 			e.costTrack[i] = costTrack{}
 		}
 	}
+}
+
+// allowedRejectCause: is the value larger than the whole cache (its cost as
+// given by the caller - explicit or through Config.Cost - plus the measured
+// internal item cost), or is its key accounted by the policy right now?
+// Called from the OnReject callback (applier context, one task running, no
+// policy lock held in simulation).
+func (e *Engine) allowedRejectCause(keyHash uint64, v *Val) bool {
+	kcs, _, max := e.api.PolicyCostsLocked()
+	if e.initMaxCost > 0 && e.initMaxCost < max {
+		// MaxCost is only ever raised in the runs this rule looks at: the code may
+		// have compared with an earlier, smaller capacity than the one read now
+		max = e.initMaxCost
+	}
+	given := v.Cost
+	if given == 0 && e.plan.Cfg.CostFn {
+		given = v.FnC
+	}
+	if !e.plan.Cfg.IgnoreIntern {
+		given = satAdd(given, e.internalCost())
+	}
+	if given > max || !e.plan.Flags.NoLowerMax {
+		return true
+	}
+	for _, kc := range kcs {
+		if kc.Key == keyHash {
+			return true
+		}
+	}
+	return false
 }
 
 type blockedWaiter struct {
